@@ -21,16 +21,6 @@ Spec(r) == F(r.kind, r.t, r.p, r.cs, r.norm, r.fwd, r.sch, r.cap16)
 (* the matcher that documentedly ran: V1 when the slab is too small for the V2 matrix *)
 Eff(r) == IF UsesV1(r.kind, r.t, r.p, r.cap16) THEN "v1" ELSE r.kind
 
-(* ---- run-length encoded lines: runs = << <<symbol, count>>, ... >> *)
-RECURSIVE SymAt(_, _), RunsLen(_), Expand(_, _)
-RunsLen(runs) == IF runs = <<>> THEN 0 ELSE runs[1][2] + RunsLen(Tail(runs))
-SymAt(runs, p) == IF p < runs[1][2] THEN runs[1][1] ELSE SymAt(Tail(runs), p - runs[1][2])      \* 0-based p
-(* the line with every run cut to at most k characters: contains the same windows of length < k and the same    *)
-(* embeddings of patterns shorter than k                                                                          *)
-Expand(runs, k) == IF runs = <<>> THEN <<>>
-                   ELSE [i \in 1..(IF runs[1][2] < k THEN runs[1][2] ELSE k) |-> runs[1][1]] \o Expand(Tail(runs), k)
-RECURSIVE LeadRuns(_)
-LeadRuns(runs) == IF runs # <<>> /\ IsSpace(runs[1][1]) THEN runs[1][2] + LeadRuns(Tail(runs)) ELSE 0
 ValidRle(r) ==
     LET N == RunsLen(r.rle)
         M == Len(r.p)
